@@ -17,9 +17,9 @@ var tplNames = []string{"random", "T1-stale-polka-vs-lock", "T2-commit-seen-by-o
 
 func pickN(x int) int {
 	switch {
-	case x < 60:
+	case x < 70:
 		return 4
-	case x < 85:
+	case x < 90:
 		return 7
 	default:
 		return 10
@@ -43,6 +43,7 @@ func runCase(r *lib.Run, idx int, maxRound, maxSweeps *atomic.Int64) {
 	c := genConfig(rng, n, minByz)
 	c.label = tplNames[kind]
 	s := newSim(r, idx, c, rng)
+	s.consistentProposer = rng.IntN(2) == 0
 	prof := genProfile(rng, c)
 	hit := false
 	switch kind {
@@ -50,7 +51,7 @@ func runCase(r *lib.Run, idx int, maxRound, maxSweeps *atomic.Int64) {
 		s.start()
 	default:
 		ha := c.h0
-		if c.heights > 1 && rng.IntN(2) == 0 {
+		if c.heights > 1 && rng.IntN(4) == 0 {
 			ha++
 		}
 		switch kind {
@@ -126,6 +127,9 @@ func runCase(r *lib.Run, idx int, maxRound, maxSweeps *atomic.Int64) {
 	r.Count("split_exactly_one_below_quorum", st.belowQuorumIdle)
 	r.Count("trigger_sync_actions", st.triggerSync)
 	r.Count("stale_height_messages_delivered", st.rejectedByAge)
+	if s.suppressed > 0 {
+		r.Count("suppressed_non_agreement_reports(drill mode)", s.suppressed)
+	}
 	if s.byzProposalEquivocation {
 		r.Count("schedules_with_equivocating_byzantine_proposer", 1)
 	}
@@ -157,11 +161,26 @@ func runCase(r *lib.Run, idx int, maxRound, maxSweeps *atomic.Int64) {
 		r.Count("decided_within_adversarial_phase", 1)
 	}
 	if !progressed {
+		// A validator keeps only the FIRST proposal of a round. One that was handed
+		// the losing proposal of an equivocating byzantine proposer for the round
+		// in which the others decided can never use line 49 for that round, and
+		// the others may then lack a quorum of live correct power. The paper's
+		// termination argument (which keeps every message) does not cover that
+		// validator, so such stalls are counted, not judged.
+		wedged := 0
 		if s.byzProposalEquivocation {
-			// A validator keeps only the first proposal per round; with two
-			// proposals from a byzantine proposer in circulation the paper's
-			// termination argument does not apply to it. Not a verdict.
-			r.Count("progress_not_applicable(equivocating proposer)", 1)
+			for _, i := range c.correct {
+				nd := s.nodes[i]
+				if v, ok := s.decided[nd.h]; ok && !nd.done {
+					if rl := s.hl(nd, nd.h).rl(s.decRound[nd.h]); rl != nil && len(rl.props) > 0 && rl.props[0].val != v {
+						wedged++
+					}
+				}
+			}
+		}
+		if wedged > 0 {
+			r.Count("progress_not_applicable(validator holds losing first proposal of decision round)", 1)
+			r.Count("validators_wedged_on_losing_first_proposal", wedged)
 		} else {
 			var where []string
 			for _, i := range c.correct {
@@ -170,6 +189,7 @@ func runCase(r *lib.Run, idx int, maxRound, maxSweeps *atomic.Int64) {
 			}
 			s.violation("progress:no-decision-within-bound-after-synchronous-suffix",
 				fmt.Sprintf("after %d sweeps of the synchronous suffix (all messages gossiped, byzantine silent) not every correct validator decided: %v", sweeps, where), nil, msg{kind: kStart})
+			r.Count("violating_schedules_"+tplNames[kind], 1)
 		}
 	}
 	if idx < 4 || (kind == 1 && hit && idx < 40) {
@@ -184,7 +204,7 @@ func runCase(r *lib.Run, idx int, maxRound, maxSweeps *atomic.Int64) {
 
 func TestC12(t *testing.T) {
 	r := lib.Start("C12", "exploration")
-	n := r.N(300000, 12000000)
+	n := r.N(200000, 6000000)
 	var maxRound, maxSweeps atomic.Int64
 	r.Cases(n, 0, func(idx int) { runCase(r, idx, &maxRound, &maxSweeps) })
 	r.Count("max_round_reached", int(maxRound.Load()))
@@ -200,5 +220,5 @@ func TestC12(t *testing.T) {
 		"different content to different peers, quorum-completing votes for a single target) or by one of three attack templates followed by the adversary; then a "+
 		"synchronous suffix. Online oracles over every action returned by Process*: agreement, validity (proposer, Valid, delivered), no equivocation, lock rule "+
 		"against the messages the harness itself delivered, thresholds 3P>=2N / 3P>=N over distinct delivered senders, bounded progress (<= 800 sweeps) after the "+
-		"suffix when no byzantine proposer equivocated. distinct = distinct schedule hashes", 1000)
+		"suffix unless a validator was handed the losing proposal of an equivocating proposer for the decision round. distinct = distinct schedule hashes", 1000)
 }
